@@ -71,8 +71,11 @@ FinishedNotRequeued == \* a finished job never re-enters a queue or a mailbox
 
 IdempotentAdd ==       \* adding under a live id changes nothing
   [][(last'.op = "add" /\ ~last'.new) => view' = view]_vars
+(* a second job is created under an id only if no job is known under it (never added, or dropped
+   and forgotten) or the known one was killed *)
 OneJobPerId ==
-  \A s, t \in DOMAIN job : (s # t /\ job[s].id = job[t].id /\ s < t) => job[s].err = "killed"
+  [][count' > count =>
+       LET id == job'[count'].id IN id2job[id] = NoJob \/ job[id2job[id]].err = "killed"]_vars
 
 Sum(st) == st.success + st.killed + st.timeout + st.error
 CountersAddUp ==
